@@ -612,14 +612,22 @@ fn run_collections(prop: &'static str, seed: u64, iters: usize) {
 // ------------------------------------------------------------------------------------------------ adapters (C09 C10 C16 C17 C04)
 fn run_adapters(prop: &'static str, seed: u64, iters: usize) {
     let mut rng = Rng(seed.wrapping_mul(0xD1B54A32D192ED03) | 1);
-    for _ in 0..iters {
-        let n = 1 + rng.below(3);
-        let len = rng.below(8);
+    for it in 0..iters {
+        // every 40th history is a burst: many immediately-ready jobs, so that internal per-poll budgets are crossed
+        let burst = it % 40 == 39;
+        let n = if burst { [1usize, 4, 48][rng.below(3)] } else { 1 + rng.below(3) };
+        let len = if burst { 100 + rng.below(100) } else { rng.below(8) };
         let mut script: Vec<Up> = vec![];
         for _ in 0..len {
-            script.push(if rng.below(4) == 0 { Up::Pending } else { Up::Item });
+            script.push(if !burst && rng.below(4) == 0 { Up::Pending } else { Up::Item });
         }
         script.push(Up::End);
+        let err_mask: u64 = if rng.below(3) == 0 { rng.next() & rng.next() } else { 0 };
+        let ready_mask: u64 = if burst { u64::MAX } else if rng.below(2) == 0 { rng.next() } else { 0 };
+        let init = move |id: usize, c: &St| {
+            if (err_mask >> (id % 64)) & 1 == 1 { c.err.set(true); }
+            if (ready_mask >> (id % 64)) & 1 == 1 { c.ready.set(true); }
+        };
         let which = rng.below(5);
         let names = ["buffered_unordered", "buffered_ordered", "try_buffered_unordered", "try_buffered_ordered", "for_each_concurrent"];
         let scenario = format!("{}({n}) upstream={:?}", names[which], script);
@@ -634,23 +642,23 @@ fn run_adapters(prop: &'static str, seed: u64, iters: usize) {
         let called = Rc::new(Cell::new(0usize));
         let (mut s, ust): (BoxS, Rc<UpSt>) = match which {
             0 => {
-                let (u, st) = upstream(&script, Box::new(|id, c| Fut::new(id, c)));
+                let (u, st) = upstream(&script, Box::new(move |id, c| { init(id, &c); Fut::new(id, c) }));
                 (Box::pin(MapOk(u.buffered_unordered(n))), st)
             }
             1 => {
-                let (u, st) = upstream(&script, Box::new(|id, c| Fut::new(id, c)));
+                let (u, st) = upstream(&script, Box::new(move |id, c| { init(id, &c); Fut::new(id, c) }));
                 (Box::pin(MapOk(u.buffered_ordered(n))), st)
             }
             2 => {
-                let (u, st) = upstream(&script, Box::new(|id, c| Ok::<TFut, usize>(TFut(Fut::new(id, c)))));
+                let (u, st) = upstream(&script, Box::new(move |id, c| { init(id, &c); Ok::<TFut, usize>(TFut(Fut::new(id, c))) }));
                 (Box::pin(MapTry(u.try_buffered_unordered(n))), st)
             }
             3 => {
-                let (u, st) = upstream(&script, Box::new(|id, c| Ok::<TFut, usize>(TFut(Fut::new(id, c)))));
+                let (u, st) = upstream(&script, Box::new(move |id, c| { init(id, &c); Ok::<TFut, usize>(TFut(Fut::new(id, c))) }));
                 (Box::pin(MapTry(u.try_buffered_ordered(n))), st)
             }
             _ => {
-                let (u, st) = upstream(&script, Box::new(|id, c| (id, c)));
+                let (u, st) = upstream(&script, Box::new(move |id, c: St| { init(id, &c); c.err.set(false); (id, c) }));
                 let called2 = called.clone();
                 let f = u.for_each_concurrent(n, move |(id, c): (usize, St)| {
                     called2.set(called2.get() + 1);
@@ -661,7 +669,7 @@ fn run_adapters(prop: &'static str, seed: u64, iters: usize) {
         };
         let mut yielded: Vec<usize> = vec![];
         let mut finished = false;
-        for _step in 0..40 {
+        for _step in 0..(if burst { 600 } else { 40 }) {
             match rng.below(4) {
                 0 => {
                     let cs = ust.children.borrow();
